@@ -1,5 +1,6 @@
 import FeatModel.Lemmas.C04
 import FeatModel.Lemmas.C04Sparse
+import FeatModel.Lemmas.C04SparseExt
 import FeatModel.Lemmas.C04Blocked
 import FeatModel.Lemmas.C04Round
 /-! # C04 — vector operations equal their element-wise definitions for every vector kind
@@ -285,24 +286,62 @@ theorem C04.sparse_format {β : Type} (setv : β → β) (s : SVec β) (h : SWF 
     (s.format setv).lookup j = (s.lookup j).map setv :=
   (format_spec setv s h).2.1 j
 
-/-- the sparse `max_abs_element()` AS CODED (index kernel over the first `size()` scalars of the value array) is
-NOT its specification (the dense kernel on the denoted vector): witness = size 5, entries {1: 2, 3: 9}; the
-code returns the fill value 4711, the specification 9 (open finding `sparse-minmax-scans-size-entries`) -/
-theorem C04.sparse_max_abs_as_coded_differs :
-    ∃ s : SVec Rat, SWF s ∧
-      (s.extremeAsCoded maxAbsElemK (fun v => [v]) 1).1 = some 4711 ∧
-      s.extremeSpec maxAbsElemK (fun v => [v]) 0 = some 9 := by
-  refine ⟨((SVec.empty 5).write 4711 1 2).write 4711 3 9, ?_, by decide +kernel, by decide +kernel⟩
-  exact swf_write _ _ (swf_write _ _ (swf_empty 5 (by decide)) 1 2 (by decide)) 3 9 (by decide)
+/-! ### sparse min/max(-abs) members (code after fix 1e5a5ec6a: scan of the stored scalars + implicit zeros)
 
-/-- same for `min_element()`: the implicit zeros are ignored (code: 2, specification: 0) -/
-theorem C04.sparse_min_as_coded_differs :
-    ∃ s : SVec Rat, SWF s ∧
-      (s.extremeAsCoded minElemK (fun v => [v]) 1).1 = some 2 ∧
-      s.extremeSpec minElemK (fun v => [v]) 0 = some 0 := by
-  refine ⟨((SVec.empty 5).write 4711 1 2).write 4711 3 7, ?_, by decide +kernel, by decide +kernel⟩
-  exact swf_write _ _ (swf_write _ _ (swf_empty 5 (by decide)) 1 2 (by decide)) 3 7 (by decide)
+`SVec.extremeCoded` is what `drv_c04` executes for `sv|svb … maxabs|minabs|max|min` and the `m` steps of `svs`;
+`SVec.extremeSpec` is the dense kernel (`C04.max_abs_element_flatten` …) on the denoted, flattened vector.
+`SOK` = states reachable through the public interface (see `C04.sparse_reachable`). -/
 
+/-- for every reachable sparse vector of size > 0, every one of the four members, scalar or blocked values
+(`flat` = scalars of a stored value, `w` = their number, the zero value flattens to zeros):
+the coded member returns exactly the dense kernel's result on the denoted vector -/
+theorem C04.sparse_extreme_eq_dense {β α : Type} [Field α] [LinearOrder α] [IsStrictOrderedRing α]
+    (kind : SVec.ExtKind) (flat : β → List α) (w : Nat) (hw : 0 < w) (zero : β)
+    (hz0 : flat zero ≠ []) (hz : ∀ x ∈ flat zero, x = 0) (s : SVec β) (h : SOK flat s) (hsize : 0 < s.size) :
+    s.extremeSpec kind.leaf flat zero = some (s.extremeCoded kind flat w).1 :=
+  (extremeCoded_eq_spec kind flat w hw zero hz0 hz s h hsize).1
+
+/-- SparseVector (scalar values) -/
+theorem C04.sparse_extreme_scalar {α : Type} [Field α] [LinearOrder α] [IsStrictOrderedRing α]
+    (kind : SVec.ExtKind) (s : SVec α) (h : SOK (fun v : α => [v]) s) (hsize : 0 < s.size) :
+    kind.leaf (s.dense 0) = some (s.extremeCoded kind (fun v => [v]) 1).1 := by
+  have := C04.sparse_extreme_eq_dense kind (fun v : α => [v]) 1 (by decide) 0 (by simp) (by simp) s h hsize
+  have hfl : ∀ l : List α, (l.map fun v => [v]).flatten = l := by
+    intro l; induction l <;> simp_all
+  simpa [SVec.extremeSpec, hfl] using this
+
+/-- SparseVectorBlocked<b> (values are blocks of `b` scalars): the kernel runs on the flattened denoted vector -/
+theorem C04.sparse_extreme_blocked {α : Type} [Field α] [LinearOrder α] [IsStrictOrderedRing α]
+    (kind : SVec.ExtKind) (b : Nat) (hb : 0 < b) (s : SVec (List α)) (h : SOK id s) (hsize : 0 < s.size) :
+    kind.leaf (s.dense (List.replicate b 0)).flatten = some (s.extremeCoded kind id b).1 := by
+  have := C04.sparse_extreme_eq_dense kind (id : List α → List α) b hb (List.replicate b 0)
+    (by intro e; have := congrArg List.length e; simp at this; omega)
+    (by intro x hx; exact (List.mem_replicate.mp hx).2) s h hsize
+  simpa [SVec.extremeSpec] using this
+
+/-- size 0 (nothing can be stored): the coded members return 0; the dense kernel has no result on the empty
+vector, where the operation is not defined -/
+theorem C04.sparse_extreme_size_zero {β : Type} (kind : SVec.ExtKind) (flat : β → List Rat) (w : Nat) (zero : β) :
+    ((SVec.empty 0 : SVec β).extremeCoded kind flat w).1 = (0 : Rat) ∧
+    (SVec.empty 0 : SVec β).extremeSpec (kind.leaf (α := Rat)) flat zero = none :=
+  extremeCoded_size_zero kind flat w zero
+
+/-- the reachable states: the empty vector, and closed under writes below the size, reads, `sort()`, `format` and
+the min/max members themselves (which sort) -/
+theorem C04.sparse_reachable {β α : Type} [Field α] [LinearOrder α] [IsStrictOrderedRing α]
+    (flat : β → List α) (fillv zero : β) (s : SVec β) (h : SOK flat s) :
+    (∀ size, 0 < size → SOK flat (SVec.empty size : SVec β)) ∧
+    (∀ i v, i < s.size → s.size ≤ idxMax → flat v ≠ [] → SOK flat (s.write fillv i v)) ∧
+    (∀ i, SOK flat (s.get zero i).2) ∧ SOK flat s.sort ∧
+    (∀ setv : β → β, (∀ v, flat v ≠ [] → flat (setv v) ≠ []) → SOK flat (s.format setv)) ∧
+    (∀ kind w, SOK flat (s.extremeCoded (α := α) kind flat w).2) :=
+  ⟨fun size hs => sok_empty flat size hs, fun i v hi hm hv => sok_write flat fillv s h i v hi hm hv,
+   fun i => sok_get flat zero s h i, sok_sort flat s h, fun setv hset => sok_format flat setv hset s h,
+   fun _ _ => sok_sort flat s h⟩
+
+/-- non-vacuity: the former defect witness (size 5, entries {1: 2, 3: 9}) now gives 9 = the dense result -/
+example : ((((SVec.empty 5 : SVec Rat).write 4711 1 2).write 4711 3 9).extremeCoded .maxAbs (fun v => [v]) 1).1 = 9 := by
+  decide +kernel
 
 /-! ## the `*_blocked` members of DenseVectorBlocked and `component_copy(_to)`
 
